@@ -2,4 +2,4 @@ package c02
 
 import "verifharness/suites/mbx"
 
-func init() { mbx.Register() }
+func init() { mbx.Register(); mbx.RegisterFacts() }
